@@ -557,7 +557,9 @@ def relations(case, res, rng_seed=0):
         def f32():
             m32, _ = build_entry(case)
             return call(m32.float(), q, k, v, m, f32=True)
-        variant("float32", f32, 2e-4)
+        # size-threshold cases sum up to 257 terms of magnitude up to 1e3: float32 tolerance relative to the output
+        big_ = case.get("size_extent") and defined.any()
+        variant("float32", f32, 2e-4 * (max(1.0, float(np.nanmax(np.abs(out[defined])))) if big_ else 1.0))
     # one batch element alone = its slice of the batched result
     cand = [b for b in range(len(fshape)) if b != axis and fshape[b] > 1]
     if cand:
@@ -807,15 +809,15 @@ SIZE_GROUPS = [[17], [31, 32, 33], [63, 64, 65], [127, 128, 129], [255, 256, 257
 _EDGES = (15, 16, 31, 32, 63, 64, 127, 128, 255, 256)
 # extent -> (flavours it exists for, cases in the quick tier, number of size groups used)
 SIZE_EXTENTS = [
-    ("T", ["dot", "general", "concat", "mha/dot", "mha/general", "mha/concat"], 14, 5),
-    ("batch-before", ["dot", "general", "concat", "mha/dot", "mha/general", "mha/concat"], 6, 5),
-    ("batch-after", ["dot", "general", "concat", "mha/dot", "mha/general", "mha/concat"], 6, 5),
-    ("query_size", ["dot", "general", "concat", "mha/dot"], 7, 5),
-    ("key_size", ["general", "concat", "mha/general"], 6, 5),
-    ("value_size", ["dot", "general", "concat", "mha/dot"], 6, 5),
-    ("hidden_size", ["concat", "mha/concat"], 6, 5),
-    ("num_heads", ["mha/dot", "mha/general", "mha/concat"], 6, 4),
-    ("d_q", ["mha/dot", "mha/general", "mha/concat"], 5, 4),
+    ("T", ["dot", "general", "concat", "mha/dot", "mha/general", "mha/concat"], 15, 5),
+    ("batch-before", ["dot", "general", "concat", "mha/dot", "mha/general", "mha/concat"], 5, 5),
+    ("batch-after", ["dot", "general", "concat", "mha/dot", "mha/general", "mha/concat"], 5, 5),
+    ("query_size", ["dot", "general", "concat", "mha/dot"], 6, 5),
+    ("key_size", ["general", "concat", "mha/general"], 5, 5),
+    ("value_size", ["dot", "general", "concat", "mha/dot"], 5, 5),
+    ("hidden_size", ["concat", "mha/concat"], 5, 5),
+    ("num_heads", ["mha/dot", "mha/general", "mha/concat"], 5, 4),
+    ("d_q", ["mha/dot", "mha/general", "mha/concat"], 4, 4),
     ("d_k", ["mha/general", "mha/concat"], 4, 4),
     ("d_v", ["mha/dot", "mha/general"], 4, 4),
     ("out_size", ["mha/dot", "mha/concat"], 4, 4),
@@ -903,7 +905,7 @@ def _pooled(rng, count, make, pool):
 def gen_sized(rng, extent, fl, n, k):
     """one case whose extent `extent` is n (see SIZE_EXTENTS); k varies layout, mask, entry point"""
     flavour, _, inner = fl.partition("/")
-    opts = {"rank": [3, 2, 3, 4][k % 4], "T": rng.choice([2, 3]), "maxb": 1 if n >= 255 else 2 if n >= 127 else 3,
+    opts = {"rank": [3, 2, 3, 4][k % 4], "T": rng.choice([2, 3]), "maxb": 1 if n >= 255 else 2,
             "mask": ["full", "none", "lowrank", "full", "bcast"][k % 5]}
     if inner:
         opts.update(inner=inner, H=rng.choice([1, 2]))
@@ -922,6 +924,8 @@ def gen_sized(rng, extent, fl, n, k):
         opts["ext"] = (opts["rank"] - 2 if extent == "batch-after" else 0, n)
         if n >= 255:
             opts.update(T=2, maxb=1)
+        if n >= 127:
+            opts.update(dv=1, osize=rng.choice([1, 2]))
     else:
         key = {"query_size": "qsize" if inner else "Q", "key_size": "ksize" if inner else "K",
                "value_size": "vsize" if inner else "D", "hidden_size": "hidden", "num_heads": "H", "d_q": "dq",
@@ -931,10 +935,12 @@ def gen_sized(rng, extent, fl, n, k):
             opts.update(dq=1, dk=1, qsize=rng.choice([1, 2]), ksize=rng.choice([1, 2]))
         if extent == "num_heads":
             opts.update(dv=rng.choice([None, 1]), rank=[3, 2][k % 2], maxb=2)
-        if extent in ("num_heads", "d_v") and n >= 63:  # closing projection: ~(H d_v)^2 per output cell
-            opts.update(osize=rng.choice([1, 2]) if n < 127 else 1, maxb=2 if n < 127 else 1)
-            if extent == "d_v":
+        if extent in ("num_heads", "d_v"):  # closing projection: ~(H d_v)^2 per output cell
+            opts.update(osize=rng.choice([1, 2]) if n < 63 else 1, maxb=2 if n < 63 else 1)
+            if extent == "d_v" and n >= 63:
                 opts["H"] = 1
+        if extent == "out_size":
+            opts["dv"] = 1
         if inner and extent == "value_size":
             opts.update(dv=rng.choice([1, 2]), osize=rng.choice([None, 2]))
     neg = flavour != "mha" and k % 3 == 1
@@ -960,7 +966,7 @@ def gen_sized(rng, extent, fl, n, k):
         mp["bV"] = _vec(rng, H * dv, 4, dense=True)
         mp["WC"] = _mat(rng, mp["osize_eff"], H * dv, 4, dense=True)
         mp["bC"] = _vec(rng, mp["osize_eff"], 4, dense=True)
-    if extent == "T" and k % 5 == 2 or extent in ("T", "d_v", "num_heads") and n >= 63 and k % 2 == 0:
+    if extent == "T" and (k % 5 == 2 or n >= 63 and k % 3 == 0) or extent in ("d_v", "num_heads") and n >= 63 and k % 2 == 0:
         # every score is 0: the weights are uniform, the output is the plain mean of the kept values (projected) - and the
         # model is cheap at any size (exp 0 = 1: its unreduced rational sums stay small, see model_cost)
         c["q"] = [0] * len(c["q"])
@@ -995,8 +1001,10 @@ def sized_cases(rng, tier):
             r0, f0 = rng.randrange(3), rng.randrange(len(flavours))
             plan = []
             for j in range(nquick):
-                g = groups[j % len(groups)]
-                plan.append((flavours[(j + f0) % len(flavours)], g[(j // len(groups) + j + r0) % len(g)]))
+                gi = j % len(groups)  # 15 cases: every size; 5: one of 31..33, another of 63..65, the third of 127..129
+                g = groups[gi]
+                fi = gi + (len(groups) - 3) * (j // len(groups)) + f0  # T: each of the 6 flavours once at 127..257
+                plan.append((flavours[fi % len(flavours)], g[(j // len(groups) + gi + r0) % len(g)]))
         k0 = rng.randrange(8)
         for j, (fl, n) in enumerate(plan):
             cases.append(gen_sized(rng, extent, fl, n, k0 + j))
@@ -1049,16 +1057,23 @@ def model_cost(case):
     eshape = np.broadcast_shapes(np.expand_dims(q, axis).shape[:-1], k.shape[:-1])
     rows = prod(np.broadcast_shapes(eshape, v.shape[:-1])) // k.shape[axis]
     T = k.shape[axis]
+    if m is not None and T in m.shape[-len(eshape):]:  # terms at masked positions are 0 and cost nothing
+        kept = int(np.broadcast_to(m, eshape).sum(axis=axis).max())
+    else:
+        kept = T
     mp = case["mha"]
     tied = not any(case["q"]) and not (mp and mp["bias"][0]) or \
         case["score"]["kind"] == "concat" and not any(case["score"]["vv"])  # all scores 0: small numbers throughout
+    slow = 2.5 if case["score"]["kind"] == "concat" else 1  # scores are sums of 53-bit tanh values: costlier lookups
     if case["flavour"] != "mha":
-        return rows * v.shape[-1] * T * T // (40 if tied else 1) + prod(eshape) * T // 2
+        return int(slow * (rows * v.shape[-1] * kept * kept // (40 if tied else 1) + prod(eshape) * T // 10))
     hd = mp["H"] * mp["dv_eff"]
-    return (rows * hd * T * T + rows * mp["osize_eff"] * hd * hd) // (40 if tied else 1) + prod(eshape) * mp["H"] * T // 2
+    return int(2 * slow * ((rows * hd * kept * kept + rows * mp["osize_eff"] * hd * hd) // (40 if tied else 1) +
+                           prod(eshape) * mp["H"] * T // 10))
 
 
-MODEL_BUDGET = {"quick": 12000, "thorough": 600000}  # measured: ~4000 units per second of vm_compute
+# measured: ~5000 units per second of vm_compute (one output cell over a full row of 128: 3.4 s, of 257: 14 s)
+MODEL_BUDGET = {"quick": 12000, "thorough": 600000}
 
 
 def gen_malformed(rng):
@@ -1222,7 +1237,7 @@ SRC_THEOREMS = ["c20_source_forward_is_model", "c20_source_forward_any_score", "
 def _src_tie_eligible(case):
     """single-head dot-product / generalised dot-product cases (every stream: the scripted / traced / keyword entries
     must give what eager CPython gives); concat and mha are not translated"""
-    return case["flavour"] in ("dot", "general")
+    return case["flavour"] in ("dot", "general") and (not case.get("size_extent") or model_cost(case) <= 6000)
 
 
 def src_term(case, res):
@@ -1279,34 +1294,30 @@ def source_tie(chk, cases, results):
 # run / replay
 # ----------------------------------------------------------------------------------------
 def judge(chk, cases, results, tag="cases"):
-    """per case: does the implementation's output agree with the model?  Ordinary cases: the Coq term, one wave of coqc
-    processes on the 16 workers of coq_eval_bools (at least 40 cases each).  Size-threshold cases (case["size_extent"]):
-    the same Coq term wherever the model can afford the size (model_cost within the tier's budget; a second wave whose
-    shards are balanced by cost), AND the numpy oracle of the definition (np_attend) for every one of them."""
+    """per case: does the implementation's output agree with the model?  Ordinary cases: the Coq term, in shards of at
+    least 40 cases on the 16 workers of coq_eval_bools.  Size-threshold cases (case["size_extent"]): the same Coq term
+    wherever the model can afford the size (model_cost within the tier's budget; shards of their own, balanced by
+    cost, in the same pool of workers), AND the numpy oracle of the definition (np_attend) for every one of them."""
     oks = [True] * len(cases)
     small = [i for i, c in enumerate(cases) if not c.get("size_extent")]
-    terms = [model_term(cases[i], results[i]) for i in small]
-    for i, ok in zip(small, coq_eval_bools(chk.workdir, IMPORTS, terms, shard=max(40, -(-len(terms) // 16)), tag=tag)):
-        oks[i] = ok
     sized = [i for i, c in enumerate(cases) if c.get("size_extent")]
     budget = MODEL_BUDGET.get(getattr(chk, "tier", "quick"), MODEL_BUDGET["quick"])
     cost = {i: model_cost(cases[i]) for i in sized}
     aff = sorted((i for i in sized if cost[i] <= budget), key=lambda i: -cost[i])
-    if aff:
-        bins = [[] for _ in range(min(16, len(aff)))]
-        load = [0] * len(bins)
-        for i in aff:  # longest processing time first, each to the least loaded shard
-            j = load.index(min(load))
-            bins[j].append(i)
-            load[j] += cost[i] + 4000
-        width = max(len(b) for b in bins)
-        flat, where = [], []
-        for b in bins:
-            flat += [model_term(cases[i], results[i]) for i in b] + ["true"] * (width - len(b))
-            where += b + [None] * (width - len(b))
-        for i, ok in zip(where, coq_eval_bools(chk.workdir, IMPORTS, flat, shard=width, tag=tag + "_sz")):
-            if i is not None:
-                oks[i] = ok
+    bins = [[] for _ in range(min(16, len(aff)))]
+    load = [0] * len(bins)
+    for i in aff:  # longest processing time first, each to the least loaded shard
+        j = load.index(min(load))
+        bins[j].append(i)
+        load[j] += cost[i] + 3000
+    width = max([max(40, -(-len(small) // 16))] * bool(small) + [len(b) for b in bins] + [1])
+    where = list(small) + [None] * (-len(small) % width)
+    for b in bins:
+        where += b + [None] * (width - len(b))
+    flat = ["true" if i is None else model_term(cases[i], results[i]) for i in where]
+    for i, ok in zip(where, coq_eval_bools(chk.workdir, IMPORTS, flat, shard=width, tag=tag)):
+        if i is not None:
+            oks[i] = ok
     for i in sized:
         results[i]["judged_by"] = ("Coq model + numpy oracle of the definition" if cost[i] <= budget else
                                    "numpy oracle of the definition (model cost %d > budget %d)" % (cost[i], budget))
